@@ -106,8 +106,9 @@ class YosysBehavioralRTLIRToVVisitorL3(
             return s.signal_expr_epilogue(node, f"{attr}")
           elif is_bitstruct_inst( obj ):
             s.signal_expr_prologue( node )
+            # (s_attr is a format template: keep the braces of the literal)
             node.sexpr['s_attr'] = \
-                s._struct_instance(node.Type.get_dtype(), obj)
+                s._struct_instance(node.Type.get_dtype(), obj).replace( "{", "{{" ).replace( "}", "}}" )
             node.sexpr["s_index"] = ""
             attr = node.attr
             return s.signal_expr_epilogue(node, f"{attr}")
